@@ -129,7 +129,7 @@ CHECKS.update({
         category="model_checking",
         technique="TLA+ specification Threads (vector-clock happens-before over shared locations, C++11 static-initialisation guard protocol) model-checked by TLC over access summaries recorded from the real code (page-protection single-step tracer over the executable's .data/.bss, libpugixml's writable segment and surviving operator-new blocks, __cxa_guard_* interposed, cold and warm call of every catalogue operation); a real T-thread stress run is trace-validated by TLC against sequential golden results",
         text="TLC explores all interleavings of the recorded access summaries of 25 catalogue operations (save/load x 4 archives x memory/stream, validation-failing loads, a broken JSON load, Convert::To numbers/enum/chrono/UTF): for T=2 every pair of operation classes with every access as a step, plus seeded bounded subsets with 2 operations per thread and T=3; invariants NoRace (DJIT+ vector clocks, guard release->acquire edges, static initialisation at clock 0), SequentialEquivalence and GuardDiscipline. A write in a warmed-up operation or an unguarded write in a cold one surfaces as a counterexample interleaving (racy pair, symbol, writer functions). Three self-tests (synthetic racy summary, synthetic write added to the recorded summaries, the same write inside a guard) must give violation / violation / no violation on every run. Result level: 4x1500 (quick) or 8x12000x3 (thorough) concurrently executed operations compared with sequential golden results by Trace_Threads.",
-        note="Decides races on static storage and on heap state that outlives an operation when allocated by library code via operator new, for the catalogue operations and inputs as recorded on x86-64 Linux with g++ -O1; schedules are exhaustive over the recorded summaries only. Trusted: libc, libstdc++, libgcc and dynamic-loader internals (filtered), malloc'ed memory of RapidJSON/pugixml DOMs is not traced, locations are at symbol granularity, no mutex/atomic vocabulary (the library has none). The result level is a seeded stress run, not exhaustive.",
+        note="Decides races on static storage and on heap state that outlives an operation when allocated by library code via operator new, for the catalogue operations and inputs as recorded on x86-64 Linux with g++ -O1; schedules are exhaustive over the recorded summaries only. Trusted: libc, libstdc++, libgcc and dynamic-loader internals (filtered); libpugixml writable segment is traced for writes only; malloc'ed memory of RapidJSON/pugixml DOMs is not traced, locations are at symbol granularity, no mutex/atomic vocabulary (the library has none). The result level is a seeded stress run, not exhaustive.",
         design_ref="DESIGN.md#c19"),
 })
 
